@@ -77,7 +77,7 @@ def check(ctx, rep):
             rep.anchor_lost('W1', fn)
             continue
         rep.analysed(b)
-        check_expansion(b, fn, tr, ty, n, rep)
+        check_expansion(b, fn, tr, ty, n, rep, ctx)
     # get_global_default = HOLDER.get().ok_or(GlobalDefaultNotSet)
     mac = ctx.mac
     g = mac.bodies.get('cadence_macros::state::get_global_default')
@@ -95,7 +95,10 @@ def check(ctx, rep):
         if len(gets) == 1:
             gct = norm(T.call_term(gets[0]))
             a = peel(gct[2][0])
-            is_holder = a[0] == 'static' or (a[0] == 'const' and 'HOLDER' in str(a))
+            root_ = a
+            while root_[0] in ('field', 'ref', 'deref'):
+                root_ = root_[1]
+            is_holder = root_[0] == 'static'
             holder_id = a
             rc = result_cases(T, gets[0])
             from ..terms import field_of as _fo
@@ -148,7 +151,27 @@ def check(ctx, rep):
         K.rule_quiet_send(fm, rep, 'W3')
 
 
-def check_expansion(b, fn, tr, ty, n, rep):
+def _is_unwrapped_global(mac, path):
+    """a (hidden) function of cadence-macros whose whole body is `get_global_default().unwrap()` / `.expect(..)`"""
+    memo = mac.__dict__.setdefault('_unwrap_global_memo', {})
+    if path in memo:
+        return memo[path]
+    res = False
+    cands = [x for x in mac.all_bodies if strip_generics(x.path) == path and x.def_kind == 'Fn']
+    if len(cands) == 1:
+        G = 'cadence_macros::state::get_global_default'
+        ib = inl(mac, cands[0], never=lambda x: strip_generics(x.path) == G)
+        calls = [strip_generics(t_.get('callee_full', '')) for bi_, t_ in ib.calls() if not ib.blocks[bi_]['cleanup']]
+        rts = ret_terms(Terms(ib), [0])
+        if len(rts) == 1 and sorted(calls) in (sorted([G, 'core::result::Result::unwrap']), sorted([G, 'core::result::Result::expect'])):
+            r = list(rts)[0]
+            res = r[0] == 'call' and r[1] in ('core::result::Result::unwrap', 'core::result::Result::expect') and term_callee_is(r[2][0], G) and \
+                not any(bl['term']['k'] == 'switch' for bl in ib.blocks if not bl['cleanup'])
+    memo[path] = res
+    return res
+
+
+def check_expansion(b, fn, tr, ty, n, rep, ctx=None):
     T = Terms(b)
     mac, trait, meth = MACROS[tr]
     inst = '%s/%s/%d-tags' % (mac, ident(ty), n)
@@ -184,6 +207,11 @@ def check_expansion(b, fn, tr, ty, n, rep):
         if name.endswith('as core::ops::deref::Deref>::deref') or name.startswith('core::hint::') or name.startswith('core::mem::drop'):
             continue
         calls.append((bb, name, t))
+    if calls and ctx is not None and calls[0][1].startswith('cadence_macros::') and calls[0][1] != 'cadence_macros::state::get_global_default' \
+            and _is_unwrapped_global(ctx.mac, calls[0][1]):
+        # the lookup-or-panic lives in a hidden helper of the macro crate: same two steps, one call site
+        bb0, _, t0 = calls[0]
+        calls = [(bb0, 'cadence_macros::state::get_global_default', t0), (bb0, 'core::result::Result::unwrap', t0)] + calls[1:]
     exp = []
     exp.append(('cadence_macros::state::get_global_default', None))
     exp.append(('UNWRAP', None))
